@@ -250,3 +250,7 @@ package standard
 
 //@ func NewStore
 //@ ensures [opened] result1 == nil ==> result0 != nil
+
+// ---- listing ----
+//@ func (*Service).OnListAccounts
+//@ ensures [always] result == rules.APPROVED
